@@ -48,6 +48,9 @@ type replicaSelector struct {
 	leaderBusyCount  int
 	leaderBusyPeerID uint64
 	leaderBusyProbed bool
+	// leaderHintRedirects counts the NotLeader replies carrying a leader hint that this selector has followed.
+	// A genuine leader transfer needs at most one hop per replica; see onNotLeader.
+	leaderHintRedirects int
 }
 
 // disableReadFeaturesForNextGen disables replica-read and stale-read feature
@@ -535,6 +538,17 @@ func (s *replicaSelector) onNotLeader(
 		// The region may be during transferring leader.
 		err = bo.Backoff(retry.BoRegionScheduling, newBackoffErrWithRPCContext("no leader", ctx))
 		return err == nil, err
+	}
+	// Following a leader hint is free of back-off because the new leader is expected to serve the request. When the
+	// hints keep redirecting (stale hints pointing at each other, or a peer naming itself) they stop making progress:
+	// once more hints than replicas have been followed, back off before following the next one, so that the retry
+	// loop consumes the back-off budget instead of spinning forever.
+	s.leaderHintRedirects++
+	if s.leaderHintRedirects > len(s.replicas) {
+		err = bo.Backoff(retry.BoRegionScheduling, errors.Errorf("not leader: %v, ctx: %v", notLeader, ctx))
+		if err != nil {
+			return false, err
+		}
 	}
 	leaderIdx := s.updateLeader(leader)
 	if leaderIdx >= 0 {
